@@ -483,6 +483,24 @@ func runCtrl(sci interface{}) {
 // checkMid for healthy runs.
 func checkWatchProtocol(h *world.H, sc *Ctrl) {
 	srv := h.Srv
+	// every completed list is reconciled and the watch is restarted at ITS
+	// version (no list result is passed over because the stream is "ahead")
+	if !detsim.IsClosed(h.Ctrl.Done()) {
+		for _, l := range srv.Lists {
+			if !l.Done || l.Outcome != "ok" {
+				continue
+			}
+			found := false
+			for _, w := range srv.Watches {
+				if w.RV == strconv.Itoa(l.SnapRV) && w.At >= l.End {
+					found = true
+				}
+			}
+			if !found {
+				detsim.Fail("list-not-followed-by-watch-reset", "list#%d completed with resourceVersion %d but no Watch call at that version followed: its result was not reconciled (the watch is restarted at the version of every list that is applied)\n%s", l.N, l.SnapRV, srv.Summary())
+			}
+		}
+	}
 	ok := map[string]bool{}
 	for _, l := range srv.Lists {
 		if l.Done && l.Outcome == "ok" {
